@@ -395,6 +395,9 @@ pub fn update_impl<Ef: SimEffect>(event: Event, model: &mut AppModel, legacy: Op
         Event::Abort(h) => {
             model.log.push(LogEntry::Abort(h));
             let f = model.handles.lock().unwrap().get(&h).cloned();
+            if f.is_some() {
+                super::build::log_abort(h);
+            }
             if let Some(handle) = f {
                 handle();
             }
